@@ -1,15 +1,19 @@
 """C20 — Element type and precision are preserved."""
 
 import itertools
+import json
 import random
 
 import numpy as np
 
 from .. import gen, impl, oracle, progs, ser, stream
 
+import warnings as _warnings
+_warnings.filterwarnings("ignore", category=np.exceptions.ComplexWarning)  # recorded explicitly where it matters
+
 ID = "C20"
 LEVEL = "proof"
-PROPS_MODULE = "SymmModel.Props.C20"
+PROPS_MODULE = "SymmModel.Props.C20All"
 THEOREMS = [
     "SymmModel.C20.promote_self",
     "SymmModel.C20.promote_comm",
@@ -20,22 +24,65 @@ THEOREMS = [
     "SymmModel.C20.dop_uniform",
     "SymmModel.C20.insert_no_imag_loss",
     "SymmModel.C20.default_zeros_loses_imag",
+    # dtype-flow model (Props/C20b.lean)
+    "SymmModel.C20b.step_preserves_dtype",
+    "SymmModel.C20b.prog_preserves_dtype",
+    "SymmModel.C20b.fuse_uniform",
+    "SymmModel.C20b.unfuse_uniform",
+    "SymmModel.C20b.reshape_uniform",
+    "SymmModel.C20b.tensordot_uniform",
+    "SymmModel.C20b.to_dense_uniform",
+    "SymmModel.C20b.fill_missing_dtype",
+    "SymmModel.C20b.fill_missing_uniform",
+    "SymmModel.C20b.svd_dtypes",
+    "SymmModel.C20b.eigh_dtypes",
+    "SymmModel.C20b.qr_dtypes",
+    "SymmModel.C20b.svd_truncated_dtypes",
+    "SymmModel.C20b.solve_uniform",
+    "SymmModel.C20b.binop_uniform",
+    "SymmModel.C20b.multiply_diagonal_uniform",
+    "SymmModel.C20b.ctor_dtypes",
+    "SymmModel.C20b.from_dense_dtype",
+    "SymmModel.C20b.fuse_insert_dtype_is_first_block",
+    "SymmModel.C20b.fuse_insert_hazard",
+    "SymmModel.C20b.fuse_insert_hazard_witness",
+    "SymmModel.C20b.tdot_block_dtype_fold",
+    "SymmModel.C20b.tdot_block_absent",
+    "SymmModel.C20b.tdot_pair_dtype",
 ]
-LEAN_FILES = ["SymmModel.Props.C20", "SymmModel.Model.DType"]
-RULE = ("the 4x4 promotion table and the real-part map of the model compared with numpy exhaustively; random "
+LEAN_FILES = ["SymmModel.Props.C20", "SymmModel.Model.DType", "SymmModel.Props.C20b", "SymmModel.Props.C20All",
+              "SymmModel.Model.DTypeFlow", "SymmModel.Driver.DTypeFlowH", "SymmModel.Proofs.DTypeFlowBasic",
+              "SymmModel.Proofs.DTypeFlowFuse", "SymmModel.Proofs.DTypeFlowOps", "SymmModel.Proofs.DTypeFlowProg",
+              "SymmModel.Proofs.DTypeFlowEval"]
+RULE = ("(1) the 4x4 promotion table and the real-part map of the model compared with numpy exhaustively; (2) random "
         "programs (all public operations incl. both fuse strategies, to_dense, fill_missing_blocks, fused and "
         "blockwise contraction, decompositions) on uniform-dtype arrays for each of float32/float64/complex64/"
         "complex128 with sparsity that forces zero-block creation: every block of every result must have the input "
         "dtype (its real part for singular values / eigenvalues), and complex data must keep its imaginary part "
-        "through fuse/unfuse/to_dense. non-trivial: a zero block had to be created, or a non-default dtype")
+        "through fuse/unfuse/to_dense (direct oracle). (3) dtype-flow model (Model/DTypeFlow.lean) tied step by step "
+        "on arrays whose stored blocks have MIXED dtypes (random per block) and shuffled dict orders: for each step of "
+        "random programs over ~45 operations the per-block dtypes of every result of the real code (and whether numpy "
+        "emitted a ComplexWarning) are compared with the model's prediction (and its losesImag flag) computed from the "
+        "actual operands; the numpy facts the model assumes (weak Python scalars, cast into destination, concatenate/"
+        "stack/reduce promotion, kernels that keep / take real parts / promote) compared with numpy exhaustively over "
+        "the four dtypes; a disagreement on mixed operands is re-run on uniform copies of the operands with the direct "
+        "oracle. non-trivial: a zero block had to be created, a non-default dtype, or (stream dflow) operands with at "
+        "least two different block dtypes")
 ANCHORS = {"abelian_core.py": ["_fuse_core", "_fuse_blocks_via_insert", "_fuse_blocks_via_concat", "to_dense",
-                               "fill_missing_blocks", "_tensordot_via_fused"],
-           "block_core.py": ["get_any_array"], "utils.py": ["get_random_fill_fn"],
-           "linalg.py": ["svd", "eigh", "qr"]}
-ASSUMPTIONS = ["the abstract dtype semantics of numpy kernels (keep / promote / cast into destination) is as "
-               "documented by numpy; tied for promotion and real parts exhaustively"]
-TRUSTED_EXTRA = ["which kernel class (keep/binary/zerosLike/insertInto/real) each symmray operation uses is read "
-                 "from the source, and is what the per-block dtype check on the real code validates"]
+                               "fill_missing_blocks", "_tensordot_via_fused", "_tensordot_blockwise", "unfuse",
+                               "multiply_diagonal", "einsum", "from_fill_fn", "from_dense", "random"],
+           "block_core.py": ["get_any_array", "_binary_blockwise_op", "norm", "_do_reduction"],
+           "utils.py": ["get_random_fill_fn"],
+           "linalg.py": ["svd", "eigh", "qr", "solve", "svd_truncated", "_get_qr_fn"],
+           "fermionic_core.py": ["phase_sync"]}
+ASSUMPTIONS = ["the abstract dtype semantics of numpy kernels (keep / promote / real part / cast into destination / "
+               "weak Python scalars) is as documented by numpy; tied for every assumed fact exhaustively over the four "
+               "dtypes on every run",
+               "pending fermionic signs do not influence dtypes (phase_sync negates blocks); validated by the mixed-"
+               "dtype stream on fermionic arrays with pending signs"]
+TRUSTED_EXTRA = ["the dtype-flow model is hand-written after the source; which example block / kernel each routine "
+                 "uses is validated by the mixed-dtype correspondence stream (dflow), where different choices give "
+                 "different answers"]
 
 
 def block_dtypes(x):
@@ -167,14 +214,797 @@ def gen_cases(seed, chunk, n, tier):
         if orc is None and rng.random() < 0.3:
             ix = gen.rand_index(rng, meta["sym"])
             cls, kw = gen.array_class(meta["sym"], False, meta["static"])
-            r = cls.random((ix, ix.conj()), dtype=dtype, seed=rng.randint(0, 99), **kw)
+            # scale / loc as python numbers and as numpy scalars (e.g. scale = 1 / np.sqrt(D)), both distributions
+            opts = {}
+            if rng.random() < 0.7:
+                opts["scale"] = rng.choice([0.5, np.float64(0.5), np.float32(0.5), 1 / np.sqrt(3.0), 2])
+            if rng.random() < 0.5:
+                opts["loc"] = rng.choice([0.25, np.float64(0.25), np.float32(0.25), -1])
+            if rng.random() < 0.3:
+                opts["dist"] = "uniform"
+            r = cls.random((ix, ix.conj()), dtype=dtype, seed=rng.randint(0, 99), **opts, **kw)
             if block_dtypes(r) - {dtype}:
-                orc = f"random(dtype={dtype}) returned blocks of dtype {sorted(block_dtypes(r))}"
+                orc = (f"random(dtype={dtype}, " + ", ".join(f"{k}={type(v).__name__}" for k, v in opts.items()) +
+                       f") returned blocks of dtype {sorted(block_dtypes(r))}")
+            if orc is None:
+                fr = sr.utils.get_random_fill_fn(seed=1, dtype=dtype, **opts)((2, 3))
+                if str(fr.dtype) != dtype:
+                    orc = f"get_random_fill_fn(dtype={dtype}, {sorted(opts)}) returned dtype {fr.dtype}"
         meta = dict(meta, nsteps=len(steps), zero_created=zero_created)
         case = {"kind": "prog", "env": env0, "steps": steps}
         out.append(dict(case=case, impl=stream.strip_py(res), oracle=orc, meta=meta,
                         nontrivial=bool(zero_created or dtype != "float64"), op="dtype", triggers=[]))
     return out
+
+
+
+# ======================================================================== dtype-flow tie
+# The model SymmModel/Model/DTypeFlow.lean predicts, for every operation, the dtype of every
+# result block from the dtypes of the operand blocks (in dict order).  It is tied to the real
+# code on arrays whose stored blocks have MIXED dtypes and shuffled dict orders — inputs on which
+# "which example block" and "which kernel class" matter.  Mixed arrays are outside the
+# property's quantifier: a disagreement there is never reported as a failing input by itself;
+# the same step is then re-run on uniform copies of its operands (all four dtypes) with the
+# direct oracle; only if that fails is a violation reported, otherwise the correspondence is
+# reported broken.
+
+SCALAR_KINDS = ("pyint", "pyfloat", "pycomplex") + ser.DTYPES
+
+
+def _dt(b):
+    return str(np.asarray(b).dtype)
+
+
+def enc_darr(x):
+    return {"sym": ser.sym_name(x.symmetry), "fermi": bool(getattr(x, "fermionic", False)),
+            "indices": [ser.enc_index(ix) for ix in x.indices], "charge": ser.enc_charge(x.charge),
+            "blocks": [{"sector": ser.enc_sector(s), "dtype": _dt(b)} for s, b in x.blocks.items()]}
+
+
+def enc_dvec(v):
+    return {"vblocks": [{"charge": ser.enc_charge(c), "dtype": _dt(b)} for c, b in v.blocks.items()]}
+
+
+def enc_dval(x):
+    import symmray as sr
+
+    if isinstance(x, sr.AbelianArray):
+        return {"darr": enc_darr(x)}
+    if isinstance(x, sr.BlockVector):
+        return {"dvec": enc_dvec(x)}
+    if isinstance(x, np.ndarray) and x.ndim > 0:
+        return {"ddense": str(x.dtype)}
+    if isinstance(x, (np.generic, np.ndarray)):
+        return {"dscalar": str(x.dtype)}
+    if isinstance(x, bool):
+        return {"dscalar": "pybool"}
+    if isinstance(x, int):
+        return {"dscalar": "pyint"}
+    if isinstance(x, float):
+        return {"dscalar": "pyfloat"}
+    if isinstance(x, complex):
+        return {"dscalar": "pycomplex"}
+    return {"dscalar": f"?{type(x).__name__}"}
+
+
+def canon_dval(v):
+    """what the tie compares: sector ↦ dtype as a sorted map (no dict order)"""
+    if "darr" in v:
+        return ("arr", tuple(sorted((tuple(map(tuple, b["sector"])), b["dtype"]) for b in v["darr"]["blocks"])))
+    if "dvec" in v:
+        return ("vec", tuple(sorted((tuple(b["charge"]), b["dtype"]) for b in v["dvec"]["vblocks"])))
+    if "dscalar" in v:
+        return ("num", v["dscalar"])
+    return ("num", v["ddense"])  # a rank-0 dense result is a numpy scalar
+
+
+def mk_scalar(kind, rng=None):
+    if kind == "pyint":
+        return 3
+    if kind == "pyfloat":
+        return 2.0
+    if kind == "pycomplex":
+        return 1.0 + 2.0j
+    return np.dtype(kind).type(2)
+
+
+def redtype(rng, x, dtypes=ser.DTYPES, shuffle=True):
+    """give every stored block its own random dtype and shuffle the dict order (in place)"""
+    items = list(x.blocks.items())
+    if shuffle:
+        rng.shuffle(items)
+    new = {}
+    for k, b in items:
+        d = rng.choice(dtypes)
+        b = np.asarray(b)
+        if not d.startswith("complex") and b.dtype.kind == "c":
+            b = b.real
+        b = b.astype(d)
+        if d.startswith("complex") and rng.random() < 0.8:
+            b = b + 1j * np.asarray(rng.randint(1, 3), dtype=d)  # a genuinely complex block
+            b = b.astype(d)
+        new[k] = b
+    x._blocks = new
+    return x
+
+
+def eval_dstep(op, ins, p):
+    """run one step on the real symmray.  Returns the list of python-side results."""
+    import symmray as sr
+
+    x = ins[0] if ins else None
+    if op in ("smul", "sdiv"):
+        s = mk_scalar(p["scalar"])
+        return [x * s] if op == "smul" else [x / s]
+    if op in ("sum", "max", "min"):
+        return [getattr(x, op)()]
+    if op == "norm":
+        return [x.norm()]
+    if op == "fill_missing_blocks":
+        y = x.copy()
+        y.fill_missing_blocks()
+        return [y]
+    if op == "vdiv":
+        return [x / ins[1]]
+    if op == "vpow":
+        return [x ** ins[1]]
+    if op == "vabs":
+        return [x.abs()]
+    if op == "vto_dense":
+        return [x.to_dense()]
+    if op == "matmul":
+        if x.fermionic:
+            return [x @ ins[1]]
+        return [x.__matmul__(ins[1], preserve_array=True)]
+    if op == "svd_truncated":
+        u, sv, vh = sr.linalg.svd_truncated(x, cutoff=-1.0, max_bond=p["max_bond"], absorb=p.get("absorb"))
+        return [u, vh] if sv is None else [u, sv, vh]
+    if op in ("from_fill", "random", "from_dense"):
+        sym = p.get("static") or p.get("symmetry")
+        cls, kw = gen.array_class(sym, p.get("fermi", False), p.get("static") is not None)
+        if p.get("oddpos"):
+            kw["oddpos"] = [sr.FermionicOperator(l, d) for l, d in p["oddpos"]]
+        charge = None if p.get("charge") is None else ser.dec_charge(p["charge"], sym)
+        if op == "from_dense":
+            arr = np.arange(int(np.prod(p["shape"])), dtype="float64").reshape(p["shape"]).astype(p["dtype"])
+            maps = [{i: ser.dec_charge(c, sym) for i, c in enumerate(m)} for m in p["maps"]]
+            return [cls.from_dense(arr, maps, p["duals"], charge=charge, invalid_sectors="ignore", **kw)]
+        indices = tuple(ser.dec_index(i, sym) for i in p["indices"])
+        if op == "from_fill":
+            return [cls.from_fill_fn(lambda shape: np.ones(shape, dtype=p["dtype"]), indices, charge, **kw)]
+        dkw = {} if p.get("dtype") is None else {"dtype": p["dtype"]}
+        return [cls.random(indices, charge, seed=7, **dkw, **kw)]
+    return impl.eval_step(op, ins, p)
+
+
+def _contractible_pairs(x, y):
+    pairs, used = [], set()
+    for i, ix in enumerate(x.indices):
+        for j, iy in enumerate(y.indices):
+            if j in used:
+                continue
+            if ix.dual != iy.dual and ix.chargemap == iy.chargemap and progs._sub_eq(ix, iy):
+                pairs.append((i, j))
+                used.add(j)
+                break
+    return pairs
+
+
+def pick_dstep(rng, env, fermi, names, counter, sym, static):
+    """an applicable step over the arrays / vectors of env (dtype-flow menu)"""
+    import symmray as sr
+
+    arrs = [n for n in names if isinstance(env[n], sr.AbelianArray)]
+    vecs = [n for n in names if isinstance(env[n], sr.BlockVector)]
+    fused = [n for n in arrs if any(ix.subinfo is not None for ix in env[n].indices)]
+    if fused and rng.random() < 0.25:
+        n = rng.choice(fused)
+        cands = [i for i, ix in enumerate(env[n].indices) if ix.subinfo is not None]
+        if rng.random() < 0.5:
+            return {"out": [f"v{counter}"], "op": "unfuse", "in": [n], "params": {"axis": rng.choice(cands)}}
+        return {"out": [f"v{counter}"], "op": "unfuse_all", "in": [n], "params": {}}
+    # prefer operands whose blocks have at least two different dtypes (fusing etc. makes results uniform)
+    if rng.random() < 0.75:
+        marrs = [n for n in arrs if len(block_dtypes(env[n])) > 1]
+        if marrs:
+            arrs = marrs
+            names = marrs + vecs
+    out = f"v{counter}"
+    if rng.random() < 0.45 and arrs:
+        st = progs.pick_step(rng, env, fermi, names, counter)
+        if st is not None and st["op"] != "smul":
+            # vectors created by the program generator get mixed dtypes too
+            for vn, v in st.get("_newvals", {}).items():
+                redtype(rng, v)
+            return st
+    for _ in range(16):
+        kind = rng.choice(["scalar", "binop", "reduce", "dense", "fill", "linalg", "linalg", "vec", "vec", "ctor",
+                           "matmul", "reshape", "fusepair", "fusepair", "tdot", "tdot", "progs", "progs", "trace",
+                           "align"])
+        if kind == "progs" and arrs:
+            st = progs.pick_step(rng, env, fermi, names, counter,
+                                 ops=["unfuse", "unfuse_all", "einsum_trace", "squeeze_expand", "multiply_diagonal"])
+            if st is not None:
+                for vn, v in st.get("_newvals", {}).items():
+                    redtype(rng, v)
+                return st
+            continue
+        if kind == "trace" and arrs:
+            n = rng.choice(arrs)
+            x = env[n]
+            if x.ndim == 2 and (not fermi or x.indices[0].dual != x.indices[1].dual):
+                return {"out": [out], "op": "trace", "in": [n], "params": {}}
+            continue
+        if kind == "align" and arrs:
+            n, m = rng.choice(arrs), rng.choice(arrs)
+            pairs = _contractible_pairs(env[n], env[m])
+            if pairs:
+                return {"out": [out + "a", out + "b"], "op": "align_axes", "in": [n, m],
+                        "params": {"axes": [[a for a, _ in pairs], [b for _, b in pairs]]}}
+            continue
+        if kind == "scalar" and (arrs or vecs):
+            n = rng.choice(arrs + vecs)
+            return {"out": [out], "op": rng.choice(["smul", "sdiv"]), "in": [n],
+                    "params": {"scalar": rng.choice(SCALAR_KINDS)}}
+        if kind == "binop" and arrs:
+            n = rng.choice(arrs)
+            x = env[n]
+            cands = [m for m in arrs if progs._same_struct(x, env[m]) and
+                     [i.subinfo is None for i in x.indices] == [i.subinfo is None for i in env[m].indices]]
+            m = rng.choice(cands)
+            op = rng.choice(["add", "sub", "mul"])
+            if op == "sub" and set(x.blocks) != set(env[m].blocks):
+                op = "add"
+            return {"out": [out], "op": op, "in": [n, m], "params": {}}
+        if kind == "reduce" and (arrs or vecs):
+            n = rng.choice(arrs + vecs)
+            if env[n].blocks:
+                return {"out": [out], "op": rng.choice(["sum", "max", "min", "norm"]), "in": [n], "params": {}}
+        if kind == "dense" and arrs:
+            n = rng.choice(arrs)
+            if all(ix.chargemap for ix in env[n].indices) and env[n].size <= 4096:
+                return {"out": [out], "op": "to_dense", "in": [n], "params": {}}
+        if kind == "fill" and arrs:
+            n = rng.choice(arrs)
+            return {"out": [out], "op": "fill_missing_blocks", "in": [n], "params": {}}
+        if kind == "linalg" and arrs:
+            mats = [n for n in arrs if env[n].ndim == 2 and env[n].blocks]
+            if not mats:
+                continue
+            n = rng.choice(mats)
+            x = env[n]
+            op = rng.choice(["qr", "qr", "svd", "eigh", "solve", "svd_truncated"])
+            if op == "qr":
+                return {"out": [out + "q", out + "r"], "op": "qr", "in": [n],
+                        "params": {"stabilized": rng.random() < 0.5}}
+            if op == "svd":
+                return {"out": [out + "u", out + "s", out + "w"], "op": "svd", "in": [n], "params": {}}
+            square = all(np.shape(b)[0] == np.shape(b)[1] for b in x.blocks.values())
+            if op == "eigh" and square and x.charge == x.symmetry.combine():
+                return {"out": [out + "e", out + "u"], "op": "eigh", "in": [n], "params": {}}
+            if op == "solve" and square:
+                # right-hand side on the dual of the row index, random dtypes per block
+                ix0 = x.indices[0]
+                cls, kw = gen.array_class(sym, fermi, static)
+                rows = sorted({s[0] for s in x.blocks})
+                rc = rng.choice(rows)
+                if fermi and gen.py_parity(sym, gen.py_sign(sym, rc, ix0.dual)):
+                    kw["oddpos"] = 77
+                try:
+                    bvec = cls(indices=(ix0,), charge=gen.py_sign(sym, rc, ix0.dual),
+                               blocks={(rc,): gen.rand_block(rng, (ix0.chargemap[rc],), rng.choice(ser.DTYPES))}, **kw)
+                except Exception:  # noqa
+                    continue
+                bn = f"w{counter}"
+                env[bn] = bvec
+                return {"out": [out], "op": "solve", "in": [n, bn], "params": {}, "_newvals": {bn: bvec}}
+            if op == "svd_truncated":
+                absorb = rng.choice([None, -1, 0, 1])
+                outs = [out + "u", out + "w"] if absorb is not None else [out + "u", out + "s", out + "w"]
+                return {"out": outs, "op": "svd_truncated", "in": [n],
+                        "params": {"max_bond": rng.choice([-1, 1, 2, 3]), "absorb": absorb}}
+        if kind == "vec" and vecs:
+            n = rng.choice(vecs)
+            v = env[n]
+            op = rng.choice(["add", "sub", "mul", "vdiv", "vpow", "vabs", "vto_dense", "neg"])
+            if op in ("vabs", "neg"):
+                return {"out": [out], "op": op, "in": [n], "params": {}}
+            if op == "vto_dense":
+                if v.blocks:
+                    return {"out": [out], "op": op, "in": [n], "params": {}}
+                continue
+            m = rng.choice(vecs)
+            if op in ("sub", "vdiv", "vpow") and set(env[m].blocks) != set(v.blocks):
+                m = n
+            return {"out": [out], "op": op, "in": [n, m], "params": {}}
+        if kind == "ctor":
+            op = rng.choice(["from_fill", "random", "from_dense"])
+            p = {"fermi": bool(fermi)}
+            p["static" if (static and sym != "Z4") else "symmetry"] = sym
+            if op == "from_dense":
+                nd = rng.randint(1, 3)
+                shape = [rng.randint(1, 3) for _ in range(nd)]
+                pool = gen.charge_pool(sym)[:2]
+                p.update(shape=shape, dtype=rng.choice(ser.DTYPES),
+                         maps=[[ser.enc_charge(rng.choice(pool)) for _ in range(d)] for d in shape],
+                         duals=[rng.random() < 0.5 for _ in range(nd)])
+            else:
+                idx = [gen.rand_index(rng, sym) for _ in range(rng.randint(1, 3))]
+                p["indices"] = [ser.enc_index(ix) for ix in idx]
+                if op == "from_fill":
+                    p["dtype"] = rng.choice(ser.DTYPES)
+                else:
+                    p["dtype"] = rng.choice([None] + list(ser.DTYPES))
+            return {"out": [out], "op": op, "in": [], "params": p}
+        if kind == "matmul" and arrs:
+            n = rng.choice(arrs)
+            x = env[n]
+            for m in arrs:
+                y = env[m]
+                if 1 <= x.ndim <= 2 and 1 <= y.ndim <= 2 and x.ndim + y.ndim >= 3:
+                    ix, iy = x.indices[-1], y.indices[0]
+                    if ix.dual != iy.dual and ix.chargemap == iy.chargemap and progs._sub_eq(ix, iy):
+                        return {"out": [out], "op": "matmul", "in": [n, m], "params": {}}
+        if kind == "reshape" and arrs:
+            n = rng.choice(arrs)
+            x = env[n]
+            if x.ndim >= 2 and x.blocks and all(ix.subinfo is None for ix in x.indices):
+                k = rng.randint(0, x.ndim - 2)
+                shp = list(x.shape)
+                f = x.fuse((k, k + 1)) if not x.fermionic else None
+                if f is not None:
+                    ns = shp[:k] + [f.shape[k]] + shp[k + 2:]
+                    if rng.random() < 0.3:
+                        ns.insert(rng.randint(0, len(ns)), 1)
+                    return {"out": [out], "op": "reshape", "in": [n], "params": {"newshape": ns}}
+        if kind == "fusepair" and arrs:
+            n = rng.choice(arrs)
+            x = env[n]
+            if x.ndim >= 2 and x.blocks:
+                groups = progs.rand_groups(rng, x.ndim, allow_single=True, max_groups=3)
+                if any(len(g) > 1 for g in groups):
+                    p = {"groups": groups}
+                    if not fermi:
+                        p["mode"] = rng.choice(["insert", "concat"])
+                    return {"out": [out], "op": "fuse", "in": [n], "params": p}
+        if kind == "tdot" and arrs:
+            n, m = rng.choice(arrs), rng.choice(arrs)
+            x, y = env[n], env[m]
+            pairs = [pr for pr in _contractible_pairs(x, y) if rng.random() < 0.7]
+            if x.ndim + y.ndim - 2 * len(pairs) > 5:
+                continue
+            rng.shuffle(pairs)
+            return {"out": [out], "op": "tensordot", "in": [n, m],
+                    "params": {"axes": [[a for a, _ in pairs], [b for _, b in pairs]],
+                               "mode": rng.choice(["fused", "fused", "blockwise", "auto"])}}
+    return None
+
+
+def _model_params(st, res):
+    """parameters the model needs in addition (derived from structure only)"""
+    import symmray as sr
+
+    p = dict(st.get("params", {}))
+    if st["op"] == "svd_truncated":
+        p["_sizes"] = None
+    return p
+
+
+def run_dstep(env, st):
+    """execute one step on the real code; returns (record, python results) where record is the
+    single-step protocol case plus the implementation's observation"""
+    import warnings
+
+    import symmray as sr
+
+    ins = [env[n] for n in st["in"]]
+    p = dict(st.get("params", {}))
+    case_env = {n: enc_dval(env[n]) for n in st["in"]}
+    try:
+        pyenv = {n: ser.enc_val(env[n]) for n in st["in"]}
+    except (ValueError, OverflowError):  # NaN / inf data (0/0, 0**-1 in vector arithmetic): not re-runnable
+        pyenv = None
+    if st["op"] == "svd_truncated":
+        x = ins[0]
+        sizes = tuple(min(np.shape(b)) for b in x.blocks.values())
+        p["counts"] = [int(c) for c in sr.linalg.calc_sub_max_bonds(sizes, p["max_bond"])]
+    step = {"out": st["out"], "op": st["op"], "in": st["in"], "params": p}
+    with warnings.catch_warnings(record=True) as w:
+        warnings.simplefilter("always")
+        try:
+            res = eval_dstep(st["op"], ins, st.get("params", {}))
+            obs = {"ok": [enc_dval(v) for v in res]}
+        except RecursionError:
+            res, obs = None, {"raise": "other"}
+        except Exception as e:  # noqa
+            res, obs = None, {"raise": ser.exc_kind(e), "msg": f"{type(e).__name__}: {e}"[:200]}
+    obs["complex_warning"] = any(issubclass(x.category, np.exceptions.ComplexWarning) for x in w)
+    rec = dict(case={"kind": "dflow", "env": case_env, "steps": [step]}, impl=obs, pyenv=pyenv,
+               pystep={"out": st["out"], "op": st["op"], "in": st["in"], "params": st.get("params", {})})
+    return rec, res
+
+
+def uniform_oracle(pyenv, pystep, meta):
+    """direct oracle of the property for one step: operands re-typed to each uniform dtype; every
+    result block must have that dtype (real part allowed for vectors / scalars).  Returns None or
+    (dtype, message)."""
+    import warnings
+
+    import symmray as sr
+
+    op = pystep["op"]
+    p = dict(pystep.get("params", {}))
+    for d in ser.DTYPES:
+        env = {}
+        for n, v in pyenv.items():
+            if "arr" in v:
+                env[n] = ser.dec_array(v["arr"], dtype=d, static=v["arr"].get("static", True))
+            elif "vec" in v:
+                env[n] = ser.dec_vec(v["vec"], dtype=d, sym=meta.get("sym"))
+            else:
+                env[n] = ser.dec_val(v)
+        if op in ("smul", "sdiv"):
+            if p["scalar"] == "pycomplex":
+                continue
+            if p["scalar"] in ser.DTYPES:
+                p["scalar"] = d
+        if op in ("from_fill", "random", "from_dense"):
+            if p.get("dtype") is None:
+                continue  # the default of random() is float64 by documentation
+            p["dtype"] = d
+        ins = [env[n] for n in pystep["in"]]
+        empty_in = any(isinstance(x, sr.AbelianArray) and not x.blocks for x in ins)
+        with warnings.catch_warnings(record=True) as w:
+            warnings.simplefilter("always")
+            try:
+                res = eval_dstep(op, ins, p)
+            except Exception:  # noqa
+                continue
+        if any(issubclass(x.category, np.exceptions.ComplexWarning) for x in w):
+            return d, f"{op} on uniform {d} operands discarded an imaginary part (ComplexWarning)"
+        for r in res:
+            if isinstance(r, sr.AbelianArray):
+                bad = block_dtypes(r) - {d}
+                if bad and not empty_in:
+                    return d, f"{op} on uniform {d} operands returned blocks of dtype {sorted(bad)}"
+            elif isinstance(r, sr.BlockVector):
+                bad = block_dtypes(r) - {d, REAL_OF[d]}
+                if bad:
+                    return d, f"{op} on uniform {d} operands returned vector blocks of dtype {sorted(bad)}"
+            elif isinstance(r, np.ndarray) and r.ndim > 0:
+                if str(r.dtype) != d and not empty_in:
+                    return d, f"{op} on uniform {d} operands returned a dense array of dtype {r.dtype}"
+            elif isinstance(r, (np.generic, np.ndarray)):
+                if str(r.dtype) not in (d, REAL_OF[d]):
+                    return d, f"{op} on uniform {d} operands returned a scalar of dtype {r.dtype}"
+    return None
+
+
+def gen_dflow(seed, chunk, n, tier):
+    import symmray as sr
+
+    rng = random.Random(seed * 6007 + chunk * 15485863 + 2020)
+    out = []
+    for _ in range(n):
+        sym = rng.choice(gen.SYMS)
+        fermi = rng.random() < 0.4
+        static = rng.random() < 0.7
+        keep = rng.choice([0.5, 0.8, 1.0])
+        for _try in range(6):
+            a, b, xa, xb = gen.rand_contractible(rng, sym, fermi=fermi, static=static, dtype="complex128",
+                                                 keep=keep, pending=fermi and rng.random() < 0.5)
+            if len(a.blocks) + len(b.blocks) >= 4 and len(a.blocks) >= 2:
+                break
+        # dtype pools: all four; or two (so that "first block" matters more often)
+        pool = rng.choice([ser.DTYPES, ser.DTYPES, ser.DTYPES, ("float32", "complex64"), ("float64", "complex128"),
+                           ("float32", "float64"), ("float64", "complex64")])
+        redtype(rng, a, pool)
+        redtype(rng, b, pool)
+        env = {"a": a, "b": b}
+        names = ["a", "b"]
+        if rng.random() < 0.5:
+            env["w"] = redtype(rng, gen.rand_vec(rng, rng.choice(a.indices), dtype="complex128", keep=0.9), pool)
+            names.append("w")
+        meta = dict(sym=sym, fermi=fermi, static=static, keep=keep)
+        for k in range(rng.randint(2, 7)):
+            st = pick_dstep(rng, env, fermi, names, k, sym, static)
+            if st is None:
+                break
+            for vn, v in st.pop("_newvals", {}).items():
+                env[vn] = v
+            rec, res = run_dstep(env, st)
+            mixed = len({t for v in rec["case"]["env"].values() for t in _all_dtypes(v)}) > 1
+            rec["meta"] = dict(meta, op=st["op"], mixed=mixed)
+            out.append(rec)
+            if res is None:
+                break
+            for nm, v in zip(st["out"], res):
+                env[nm] = v
+            names.extend(st["out"])
+    return out
+
+
+def _all_dtypes(v):
+    if "darr" in v:
+        return [b["dtype"] for b in v["darr"]["blocks"]]
+    if "dvec" in v:
+        return [b["dtype"] for b in v["dvec"]["vblocks"]]
+    return []
+
+
+def _first_dtype(v):
+    if "darr" in v:
+        bl = v["darr"]["blocks"]
+        return bl[0]["dtype"] if bl else None
+    if "dvec" in v:
+        bl = v["dvec"]["vblocks"]
+        return bl[0]["dtype"] if bl else None
+    return None
+
+
+def compare_dflow(ctx, items, model, stream="dflow"):
+    """diff implementation observation and model prediction of every single-step case"""
+    for it in items:
+        meta = it["meta"]
+        ctx.stat(f"{stream}.op={meta['op']}")
+        ctx.stat(f"{stream}.mixed={meta['mixed']}")
+        if meta["mixed"]:
+            ctx.mark_nontrivial(json.dumps(it["case"], sort_keys=True, default=str))
+        ctx.sample({"stream": stream, "step": it["case"]["steps"][0], "operand_dtypes":
+                    {n: [b["dtype"] for b in v.get("darr", {}).get("blocks", [])] for n, v in it["case"]["env"].items()}},
+                   limit=4)
+        if model is None:
+            continue
+        m = model[it["case"]["id"]]
+        if "bad" in m:
+            ctx.correspondence_broken(f"{stream}:driver-bad", m["bad"] + " :: " + json.dumps(it["case"]["steps"])[:300])
+            continue
+        mr = m["results"][0]
+        obs = it["impl"]
+        mismatch = None
+        if "ok" in obs and "ok" in mr:
+            ci = [canon_dval(v) for v in obs["ok"]]
+            cm = [canon_dval(v) for v in mr["ok"]]
+            if ci != cm:
+                mismatch = dict(kind="dtypes", impl=ci, model=cm)
+            elif bool(mr["flags"]["losesImag"]) != bool(obs["complex_warning"]):
+                mismatch = dict(kind="losesImag-vs-ComplexWarning", impl=obs["complex_warning"], model=mr["flags"])
+            if mr["flags"]["losesImag"]:
+                ctx.stat(f"{stream}.imaginary_part_lost_on_mixed_input")
+            if mr["flags"]["narrows"]:
+                ctx.stat(f"{stream}.narrowed_on_mixed_input")
+            if mr["flags"]["defaulted"]:
+                ctx.stat(f"{stream}.defaulted_float64")
+        elif "raise" in obs:
+            # an exception of the real code is not a dtype observation (error behaviour is the subject
+            # of other properties; the dtype-flow model has e.g. no odd-position labels)
+            ctx.stat(f"{stream}.implementation_raised")
+        else:
+            mismatch = dict(kind="ok-vs-raise", impl={k: v for k, v in obs.items() if k != "ok"} if "raise" in obs else "ok",
+                            model=mr if "raise" in mr else "ok")
+        if mismatch is None:
+            continue
+        ctx.disagreements_checked += 1
+        orc = uniform_oracle(it["pyenv"], it["pystep"], meta) if it["pyenv"] is not None else None
+        detail = dict(step=it["case"]["steps"][0], operands=it["case"]["env"], mismatch=mismatch, meta=meta)
+        if orc is not None:
+            ctx.violation(f"{stream}: {orc[1]}",
+                          dict(stream=stream, dtype=orc[0], pyenv=it["pyenv"], step=it["pystep"], detail=detail),
+                          triggers=[], op="dtype")
+        else:
+            ctx.correspondence_broken(f"{stream}:model-vs-implementation", json.dumps(detail, default=str)[:6000])
+
+
+def numpy_facts(ctx):
+    """the numpy facts the dtype-flow model assumes, compared with numpy itself exhaustively over
+    the four dtypes (and with the model's tables through the driver)"""
+    import warnings
+
+    D = ser.DTYPES
+    qs, exp = [], []
+    one = {d: np.ones((2, 2), dtype=d) for d in D}
+    for d in D:
+        for k in SCALAR_KINDS:
+            s = mk_scalar(k)
+            rs = {str((one[d] * s).dtype), str((one[d] / s).dtype), str((one[d] + s).dtype),
+                  str((one[d] - s).dtype), str((one[d] ** s).dtype), str((s * one[d]).dtype)}
+            qs.append(["scalar", d, k])
+            exp.append(rs.pop() if len(rs) == 1 else sorted(rs))
+    for k in ("pyint",) + D:  # left operands the routines produce: `sum(...)` starts from int 0; numpy scalars
+        for l in SCALAR_KINDS:
+            r = mk_scalar(k) + mk_scalar(l)
+            qs.append(["combine", k, l])
+            exp.append(enc_dval(r)["dscalar"])
+    for dest in D:
+        for src in D:
+            z = np.zeros((2,), dtype=dest)
+            v = (1 + 2.0 ** -40) + (1j if src.startswith("complex") else 0)
+            with warnings.catch_warnings(record=True) as w:
+                warnings.simplefilter("always")
+                z[:] = np.full((2,), v, dtype=src)
+            cw = any(issubclass(x.category, np.exceptions.ComplexWarning) for x in w)
+            stored_exact = complex(z[0]).real == complex(np.dtype(src).type(v)).real
+            src_has_bits = complex(np.dtype(src).type(v)).real != 1.0
+            qs.append(["cast", dest, src])
+            exp.append([str(z.dtype), cw, bool(src_has_bits and not stored_exact)])
+    for n in (1, 2, 3):
+        for ds in itertools.product(D, repeat=n):
+            pieces = [one[d] for d in ds]
+            rs = {str(np.concatenate(pieces, axis=0).dtype), str(np.concatenate(pieces, axis=1).dtype),
+                  str(np.stack([p.sum() for p in pieces]).dtype)}
+            import functools, operator
+            rs.add(str(functools.reduce(operator.add, pieces).dtype))
+            qs.append(["concat", list(ds)])
+            exp.append(rs.pop() if len(rs) == 1 else sorted(rs))
+    # kernels assumed to keep / take real parts / promote: python-side comparison with the table
+    prom = {(a, b): str(np.promote_types(a, b)) for a in D for b in D}
+    bad = []
+    for d in D:
+        x = (np.arange(4, dtype="float64").reshape(2, 2) + np.eye(2) * 3).astype(d)
+        h = (x + x.conj().T)
+        keep = {"transpose": np.transpose(x, (1, 0)), "reshape": np.reshape(x, (4,)), "slice": x[:, :1],
+                "fancy": x[[0, 1]][:, [1]], "None": x[None], "conj": np.conj(x), "neg": -x, "sqrt": np.sqrt(x),
+                "einsum": np.einsum("aa->", x), "einsum2": np.einsum("ab->ba", x), "trace": np.trace(x),
+                "qr-q": np.linalg.qr(x)[0], "qr-r": np.linalg.qr(x)[1], "svd-u": np.linalg.svd(x, full_matrices=False)[0],
+                "svd-v": np.linalg.svd(x, full_matrices=False)[2], "eigh-v": np.linalg.eigh(h)[1],
+                "zeros-dtype": np.zeros((2,), dtype=x.dtype), "sum": x.sum(), "max": x.real.astype(REAL_OF[d]).max() if False else x.sum(),
+                "pow0.5": np.abs(x).sum() ** 0.5 * np.ones(1, dtype=d)[0]}
+        import autoray as ar
+        keep["zeros-like"] = ar.do("zeros", (2,), like=x)
+        for k, v in keep.items():
+            if str(np.asarray(v).dtype) != d:
+                bad.append(f"{k}({d}) has dtype {np.asarray(v).dtype}")
+        real = {"abs": np.abs(x), "svd-s": np.linalg.svd(x, full_matrices=False)[1], "eigh-w": np.linalg.eigh(h)[0],
+                "abs2sum": np.sum(np.abs(x) ** 2), "norm-pow": np.sum(np.abs(x) ** 2) ** 0.5}
+        for k, v in real.items():
+            if str(np.asarray(v).dtype) != REAL_OF[d]:
+                bad.append(f"{k}({d}) has dtype {np.asarray(v).dtype}")
+        for e in D:
+            y = (np.arange(4, dtype="float64").reshape(2, 2) + 1).astype(e)
+            binary = {"add": x + y, "mul": x * y, "sub": x - y, "div": x / y, "pow": x ** y,
+                      "tensordot": np.tensordot(x, y, axes=((1,), (0,))), "tensordot0": np.tensordot(x, y, axes=((), ())),
+                      "solve": np.linalg.solve(x, y[:, 0]), "mulvec": x * y[0].reshape((1, -1))}
+            for k, v in binary.items():
+                if str(v.dtype) != prom[(d, e)]:
+                    bad.append(f"{k}({d},{e}) has dtype {v.dtype}, promote gives {prom[(d, e)]}")
+    import autoray as ar
+    if str(ar.do("zeros", (2,), like=0.0).dtype) != "float64":
+        bad.append("zeros(like=0.0) is not float64")
+    if bad:
+        ctx.correspondence_broken("dflow:numpy-facts", "; ".join(bad[:12]))
+    ctx.evaluations += len(qs) + 4 * 25 + 16 * 9
+    ctx.stat("numpy_fact_table_entries", len(qs) + 4 * 25 + 16 * 9)
+    m = ctx.model([{"id": 0, "kind": "dflowTable", "queries": qs}])
+    if m is not None:
+        if "bad" in m[0]:
+            ctx.correspondence_broken("dflow-table:driver-bad", m[0]["bad"])
+        else:
+            diff = [(q, a, e) for q, a, e in zip(qs, m[0]["answers"], exp) if a != e]
+            if diff:
+                ctx.correspondence_broken("dflow-table", f"{len(diff)} entries differ, first: {diff[:5]}")
+
+
+def hazard_witness(ctx):
+    """the model theorem `fuse_insert_mixed_loses_imag` replayed on the real code: a (legal but
+    non-uniform) array whose first stored block is real and a later one complex is fused in insert
+    mode.  Documentation (outside the property's uniform-input quantifier), reported as a note."""
+    import warnings
+
+    import symmray as sr
+
+    ix = sr.BlockIndex({0: 1, 1: 1}, dual=False)
+    blocks = {(0, 0): np.array([[1.0]], dtype="float64"), (1, 1): np.array([[2.0 + 3.0j]], dtype="complex128")}
+    x = sr.Z2Array(indices=(ix, ix.conj()), charge=0, blocks=blocks)
+    case = {"id": 0, "kind": "dflow", "env": {"x": enc_dval(x)},
+            "steps": [{"out": ["f"], "op": "fuse", "in": ["x"], "params": {"groups": [[0, 1]], "mode": "insert"}},
+                      {"out": ["g"], "op": "fuse", "in": ["x"], "params": {"groups": [[0, 1]], "mode": "concat"}}]}
+    with warnings.catch_warnings(record=True) as w:
+        warnings.simplefilter("always")
+        f = x.fuse((0, 1), mode="insert")
+    g = x.fuse((0, 1), mode="concat")
+    lost = any(issubclass(q.category, np.exceptions.ComplexWarning) for q in w)
+    fi, gi = f.blocks[(0,)], g.blocks[(0,)]
+    real_code = dict(insert_dtype=str(fi.dtype), insert_values=[complex(v) for v in fi.tolist()],
+                     concat_dtype=str(gi.dtype), concat_values=[complex(v) for v in gi.tolist()],
+                     complex_warning=lost)
+    m = ctx.model([case])
+    if m is not None and "results" in m[0]:
+        r0, r1 = m[0]["results"][0], m[0]["results"][1]
+        model = dict(insert_dtype=r0["ok"][0]["darr"]["blocks"][0]["dtype"], losesImag=r0["flags"]["losesImag"],
+                     concat_dtype=r1["ok"][0]["darr"]["blocks"][0]["dtype"])
+        if (model["insert_dtype"], model["losesImag"], model["concat_dtype"]) != \
+                (real_code["insert_dtype"], real_code["complex_warning"], real_code["concat_dtype"]):
+            ctx.correspondence_broken("dflow:hazard-witness", json.dumps(dict(model=model, real=real_code), default=str))
+    ctx.evaluations += 1
+    if lost and str(fi.dtype) == "float64":
+        # recorded known finding (deterministic probe)
+        ctx.violation("fuse(mode='insert') of an array whose first block is real and a later one complex discards "
+                      "the imaginary part", dict(stream="hazard-witness", real_code=real_code),
+                      triggers={"mixed_block_dtypes", "insert"}, op="fuse")
+        ctx.stat("hazard.mixed_fuse_insert_drops_imaginary_part")
+        ctx.notes.append("documented hazard (outside the uniform-input quantifier): fuse(mode='insert') of a Z2 "
+                         "matrix with blocks {(0,0): float64 [[1]], (1,1): complex128 [[2+3j]]} returns the float64 "
+                         f"block {real_code['insert_values']} (imaginary part dropped with a ComplexWarning); "
+                         f"mode='concat' returns {real_code['concat_values']}")
+
+
+def mixed_stream(ctx):
+    """complex data that reaches an operation inside an array with mixed block dtypes (c = a + b with a real,
+    b complex and sparser — both operands uniform, public operations only) must keep its imaginary part
+    through to_dense, both fuse strategies, unfuse and contraction.  Direct oracle: independent densification."""
+    import warnings
+
+    import symmray as sr
+
+    rng = random.Random(ctx.seed * 7919 + 2020)
+    n = 60 if ctx.tier == "quick" else 600
+    for _ in range(n):
+        sym = rng.choice(gen.SYMS)
+        nd = rng.randint(2, 3)
+        rdt, cdt = rng.choice([("float64", "complex128"), ("float32", "complex64"), ("float64", "complex64")])
+        a = gen.rand_array(rng, sym, ndim=nd, fermi=False, static=True, dtype=rdt, keep=1.0, max_charges=2, max_size=2)
+        if len(a.blocks) < 2:
+            continue
+        first = next(iter(a.blocks))
+        b = a.copy()
+        for s_ in list(b.blocks):
+            blk = np.asarray(b.blocks[s_])
+            if s_ == first or rng.random() < 0.3:
+                del b.blocks[s_]
+            else:
+                b.blocks[s_] = ((1 + rng.randint(1, 3) * 1j) * blk).astype(cdt)
+        if not b.blocks:
+            continue
+        with warnings.catch_warnings():
+            warnings.simplefilter("ignore")
+            c = a + b
+            D = oracle.dense(a).astype("complex128") + oracle.dense(b).astype("complex128")
+            ctx.evaluations += 1
+            ctx.stat("mixed:cases")
+            case = dict(stream="mixed", sym=sym, a=ser.enc_array(a), b=ser.enc_array(b), dtypes=[rdt, cdt])
+            trig = {"mixed_block_dtypes"}
+            try:
+                d = np.asarray(c.to_dense())
+                if not np.array_equal(d.astype("complex128"), D):
+                    ctx.violation(f"(real + sparser complex).to_dense() loses data: dtype {d.dtype}, max deviation "
+                                  f"{float(np.max(np.abs(d - D)))}", case, triggers=trig, op="to_dense")
+                    return
+                g = list(range(nd))
+                rng.shuffle(g)
+                g = sorted(g[:2])
+                for mode in ("concat", "insert"):
+                    f = c.fuse(tuple(g), mode=mode)
+                    df = np.asarray(f.unfuse(g[0]).to_dense()).astype("complex128")
+                    perm = [i for i in range(g[0]) if i not in g] + g + [i for i in range(g[0], nd) if i not in g]
+                    if not np.array_equal(df, np.transpose(D, perm)):
+                        ctx.violation(f"(real + sparser complex).fuse(mode={mode!r}) discards imaginary parts / precision "
+                                      f"(block dtypes {sorted(block_dtypes(f))})", case,
+                                      triggers=trig | {mode}, op="fuse")
+                        if mode != "insert":
+                            return
+                z = sr.tensordot(c, c.conj(), (tuple(range(nd)), tuple(range(nd))), mode="blockwise")
+                if complex(z) != complex(np.sum(D * np.conj(D))):
+                    ctx.violation("blockwise contraction of a mixed real/complex array with its conjugate differs from "
+                                  "the dense value", case, triggers=trig, op="tensordot")
+                    return
+            except Exception as e:  # noqa
+                ctx.violation(f"operation on a mixed real/complex array raised {type(e).__name__}: {e}", case,
+                              triggers=trig, op="mixed")
+                return
+
+
+def run_dflow(ctx):
+    n = 2400 if ctx.tier == "quick" else 20000
+    per_chunk = 50
+    nchunks = max(1, (n + per_chunk - 1) // per_chunk)
+    args = [(ctx.seed, k, min(per_chunk, n - k * per_chunk), ctx.tier) for k in range(nchunks)]
+    chunks = ctx.pmap("harness.props.c20", "gen_dflow", args)
+    items = [it for ch in chunks for it in ch]
+    for i, it in enumerate(items):
+        it["case"]["id"] = i
+    ctx.evaluations += len(items)
+    model = ctx.model([it["case"] for it in items])
+    compare_dflow(ctx, items, model)
 
 
 def run(ctx):
@@ -195,7 +1025,20 @@ def run(ctx):
     n = 2400 if ctx.tier == "quick" else 16000
     stream.run_stream(ctx, "dtype", "harness.props.c20", "gen_cases", n, per_chunk=30,
                       canon_kw=dict(drop_zero=True))
+    # (3) dtype-flow model tied on mixed-dtype inputs; numpy facts; hazard witness
+    numpy_facts(ctx)
+    hazard_witness(ctx)
+    mixed_stream(ctx)
+    run_dflow(ctx)
 
 
 def replay(ctx, payload):
+    case = payload.get("case", {})
+    if isinstance(case, dict) and case.get("stream") == "dflow":
+        # a step that fails the direct oracle on uniform operands: re-run it on the current tree
+        orc = uniform_oracle(case["pyenv"], case["step"], case.get("detail", {}).get("meta", {}))
+        print("what:", payload.get("what"))
+        print("step:", json.dumps(case["step"]))
+        print("verdict:", f"violation reproduces: {orc[1]}" if orc else "not reproduced on this tree")
+        return 1 if orc else 0
     return stream.replay(ctx, payload, canon_kw=dict(drop_zero=True))
